@@ -1082,16 +1082,19 @@ _dispatch_operation_create(dispatch_op_direction_t direction,
 		_dispatch_retain(queue);
 		_dispatch_retain(channel);
 		dispatch_async(channel->barrier_queue, ^{
+			// On the barrier queue the flags set by a dispatch_io_close() that
+			// preceded this (zero-length) operation are visible
+			int berr = err ? err : _dispatch_io_get_error(NULL, channel, false);
 			dispatch_async(queue, ^{
 				dispatch_data_t d = data;
-				if (direction == DOP_DIR_READ && err) {
+				if (direction == DOP_DIR_READ && berr) {
 					d = NULL;
-				} else if (direction == DOP_DIR_WRITE && !err) {
+				} else if (direction == DOP_DIR_WRITE && !berr) {
 					d = NULL;
 				}
 				_dispatch_channel_debug("IO handler invoke: err %d", channel,
-						err);
-				handler(true, d, err);
+						berr);
+				handler(true, d, berr);
 				_dispatch_release(channel);
 				_dispatch_io_data_release(data);
 			});
